@@ -118,7 +118,19 @@ async def scenario(loop, plan, r):
         consecutive = 0
         ordinal = plan.get("counter0", 0)  # feeds since start: the watchdog has been running for a while
         saw_run = saw_recover = False
+        sims = {v: sim}
+        switch = {int(k_): nv for k_, nv in (plan.get("switch") or {}).items()}
         for k, oc in enumerate(seq):
+            if k in switch:
+                # the protocol version changes on the same connection (a reset puts EZSP back on version 4 until the
+                # version is negotiated again): the keep-alive follows the version that is active NOW
+                v = switch[k]
+                if v not in sims:
+                    sims[v] = WdSim(loop, v)
+                sim = sims[v]
+                sim.attach(ezsp)
+                ezsp._switch_protocol_version(v)
+                r.cls("version-switched-between-feeds")
             if k < len(between) and between[k]:
                 await other_activity(between[k])
                 r.cls("other-activity-between-feeds")
@@ -259,6 +271,27 @@ def _worker_stopped(ctx, job):
         ctx.check(plan, check(plan), sample=(first == 2 and rest[:2] == ("err:stopped", "ok")))
 
 
+def _worker_vswitch(ctx, job):
+    v0, v1 = job
+    for k1 in (1, 2, 4):
+        for k2 in (None, k1 + 1, k1 + 3):
+            for fail in ("ok", "timeout"):
+                seq = []
+                for i in range(10):
+                    seq.append("ok" if fail == "ok" or i % 3 else "timeout")
+                sw = {str(k1): v1}
+                if k2 is not None:
+                    sw[str(k2)] = v0
+                # outcomes are named per version: translate for feeds that run on a non-4 version
+                vs, cur = [], v0
+                for i in range(10):
+                    cur = int(sw.get(str(i), cur))
+                    vs.append(cur)
+                seq = [o if (o == "ok" or vs[i] == 4) else "timeout@counters" for i, o in enumerate(seq)]
+                plan = {"v": v0, "seq": seq, "switch": sw}
+                ctx.check(plan, check(plan), sample=(k1 == 2 and k2 is None and fail == "ok"))
+
+
 def _worker_misc(ctx, job):
     """(a) runs of unanswered keep-alives some of which are in flight while the protocol handler is replaced;
     (b) the read-and-clear period across the 16-, 31- and 32-bit boundaries of the feed counter."""
@@ -292,4 +325,5 @@ def run(ctx):
     # counter read of later versions is a handler-level helper that does not pass through that gate (not judged here)
     ctx.parallel(_worker_stopped, [(4, f) for f in range(3)])
     ctx.parallel(_worker_misc, [(v, what) for v in (4, 8, 14) for what in ("switch", "counter")])
+    ctx.parallel(_worker_vswitch, [(8, 4), (4, 8), (13, 4), (4, 14), (14, 4)])
     ctx.parallel(_worker_long, [12] * 16 if quick else [300] * 16)
